@@ -182,9 +182,17 @@ where
         let mut connector: Option<Connector<T, P, B>> = Some(connector);
         let token = self.keys.lock().insert(key);
 
-        if let Some(connection) = inner.pop(token) {
+        if let Some(mut connection) = inner.pop(token) {
             trace!("connection found in pool");
             connector = None;
+
+            // A connection which can be shared stays available in the pool while this
+            // checkout holds its own handle, so that checkouts created before this one
+            // is polled find it as well.
+            if let Some(shared) = connection.reuse() {
+                inner.push(token, shared, self.as_ref());
+            }
+
             return Checkout::new(
                 token,
                 self.as_ref(),
